@@ -3,6 +3,8 @@ import Hub.Model.Monitors
 import Hub.Model.Run
 import Hub.SDK.Bech32
 import Hub.SDK.Paginate
+import Hub.Model.Query
+import Hub.Generated.Proto
 /-
 Line-protocol driver of the model (core-only, runs as `lake env lean --run Main.lean` or as the
 compiled `hubmodel`).  Reads one operation per line on stdin, answers in the format of the
@@ -193,6 +195,10 @@ def step (d : Drv) (line : String) : Drv × List String :=
           | none => respond d line "reject:gov" [] true
         | none => respond d line "bad-op" [] false
       | "mintprobe" => respond d line "accept" [mintProbeLine d.s (fint f "t")] false
+      | "query" =>
+        match rest with
+        | sub :: rest' => let (r, ls) := runQuery d.s sub (parseFields rest'); respond d line r ls false
+        | [] => respond d line "bad-op" [] false
       | "dump" => respond d line "accept" [] true
       | _ => respond d line "bad-op" [] false
 
@@ -232,6 +238,8 @@ def probeLine (line : String) : String :=
     | "b32enc" => Hub.SDK.Bech32.runBech32Probe line
     | "b32dec" => Hub.SDK.Bech32.runBech32Probe line
     | "page" => Hub.SDK.Paginate.runPaginateProbe line
+    | "pb" => Hub.Generated.Proto.runProtoProbe line
+    | "pbd" => Hub.Generated.Proto.runProtoDecodeProbe line
     | _ => "bad-case"
 
 partial def probeLoop (h : IO.FS.Stream) (out : IO.FS.Stream) : IO Unit := do
